@@ -48,7 +48,10 @@ pub fn check_uniform(out: &str, cfg: &Cfg) -> Result<(), Failure> {
                 .fact("in-gap"));
             }
         }
-        if t.kind == Kind::TextMulti && cfg.format_multiline_strings && !inside(t.start) {
+        // (the exempt ranges include every multi-line token itself: only ranges other than the
+        // literal's own count here, i.e. verbatim regions and asm bodies around it)
+        let in_region = ex.iter().any(|(a, b)| t.start >= *a && t.start < *b && !(*a == t.start && *b == t.end));
+        if t.kind == Kind::TextMulti && cfg.format_multiline_strings && !in_region {
             let lit = t.text(out);
             // only literals the formatter owns: valid ones (indentation rule holds)
             if c02::mlstr_value(lit).is_some() {
@@ -119,6 +122,8 @@ impl Prop for C09Prop {
         let q = tier == Tier::Quick;
         let mut v = wf::wf_streams(tier, 1);
         v.push(Stream::random("mlprog", if q { 500 } else { 8000 }, 700));
+        // C12's literal shapes (positions, quote counts, interior endings), narrow widths
+        v.push(Stream::random("lits", if q { 1500 } else { 20000 }, 300));
         v.push(Stream::random("any", if q { 3000 } else { 40000 }, 400));
         // through the real binary: files whose only difference from their result is the terminator
         v.push(Stream::random("cli", if q { 8 } else { 80 }, 700));
@@ -137,6 +142,26 @@ impl Prop for C09Prop {
                 let cfg = Cfg::gen_unsaturated(t);
                 let (input, g) = common::gen_any_input(t, 80);
                 Some(Case::text(g, input, cfg))
+            }
+            "lits" => {
+                let mut c = crate::props::c12::C12.generate("lits", t)?;
+                if c.cfg.saturates() {
+                    return None;
+                }
+                // the literal generator emits CR / CRLF interior endings too; C09 starts from an
+                // LF source and derives the other renderings itself
+                if c.input.contains('\r') {
+                    c.input = c.input.replace("\r\n", "\n").replace('\r', "\n");
+                    if let Some(a) = c.ann.as_mut() {
+                        for l in a.lexemes.iter_mut() {
+                            *l = l.replace("\r\n", "\n").replace('\r', "\n");
+                        }
+                    }
+                }
+                if t.chance(1, 2) {
+                    c.cfg.wrap_column = *t.pick(&[30, 20, 40, 25, 35, 50, 15, 60]);
+                }
+                Some(c)
             }
             "mlprog" => {
                 let cfg = Cfg::gen_unsaturated(t);
